@@ -151,6 +151,35 @@ IsPow2R(x) == x[1] # 0 /\ IsPow2(IF x[1] < 0 THEN -x[1] ELSE x[1]) /\ IsPow2(x[2
 \* determinant are powers of two (all quotients are then exact)
 ExactLU(A) == IsPow2R(A.v[1]) /\ IsPow2R(A.v[3]) /\ IsPow2R(Det2(A))
 
+\* ------------------------------------------------------------------ closeness / equality tests
+\* numpy.isclose on finite numbers: |a - b| <= atol + rtol * |b|.  The relative tolerance is taken from the SECOND
+\* operand: the test is NOT symmetric, so which operand is handed to NumPy first is part of the computation.
+CloseTo(x, y, rt, at) == RLe(RAbs(RSub(x, y)), RAdd(at, RMul(rt, RAbs(y))))
+\* broadcasting of the pairs the instance generates: equal shapes, or one operand 0-d
+BAt(X, k) == IF Len(X.v) = 1 THEN X.v[1] ELSE X.v[k]
+BSh(X, Y) == IF Rk(X) >= Rk(Y) THEN X.sh ELSE Y.sh
+BLen(X, Y) == IF Len(X.v) >= Len(Y.v) THEN Len(X.v) ELSE Len(Y.v)
+RBool(b) == IF b THEN ROne ELSE RZero
+IsCloseArr(X, Y, rt, at) == [sh |-> BSh(X, Y), v |-> [k \in 1..BLen(X, Y) |-> RBool(CloseTo(BAt(X, k), BAt(Y, k), rt, at))]]
+AllTrue(B) == A0(RBool(\A k \in 1..Len(B.v) : B.v[k] = ROne))
+EqArr(X, Y) == [sh |-> BSh(X, Y), v |-> [k \in 1..BLen(X, Y) |-> RBool(REq(BAt(X, k), BAt(Y, k)))]]
+\* The pair of operands unyt hands to NumPy, as transcribed from _array_comp_helper (_array_functions.py:578-588):
+\* uc = who carries units ("q" quantity, "b" bare ndarray, "l" Python list / number, "d" dimensionless unyt_array).
+\* Three branches: both carry units -> second converted to the first's (same unit here: identity); second without
+\* units -> it adopts the first's; first without units -> it adopts the second's.  The ORDER is never changed.
+Unitless(k) == k \in {"b", "l", "d"}
+CompOperands(a, uc) == IF ~Unitless(uc[1]) /\ ~Unitless(uc[2]) THEN <<a[1], a[2]>>
+                       ELSE IF Unitless(uc[2]) THEN <<a[1], a[2]>> ELSE <<a[1], a[2]>>
+\* p = <<rtol numerator, rtol denominator, atol numerator, atol denominator>>
+CmpFn(fn, x, y, p) == CASE fn = "isclose" -> IsCloseArr(x, y, <<p[1], p[2]>>, <<p[3], p[4]>>)
+                        [] fn = "allclose" -> AllTrue(IsCloseArr(x, y, <<p[1], p[2]>>, <<p[3], p[4]>>))
+                        [] fn = "array_equal" -> A0(RBool(x.sh = y.sh /\ \A k \in 1..Len(x.v) : REq(x.v[k], y.v[k])))
+                        [] fn = "array_equiv" -> AllTrue(EqArr(x, y))
+CmpFns == {"isclose", "allclose", "array_equal", "array_equiv"}
+\* would the answer change if the two operands were handed over in the other order? (model-level: which cases are
+\* sensitive to an operand swap - the instance must contain such cases for every carrier pattern)
+SwapSensitive(fn, a, p) == CmpFn(fn, a[1], a[2], p) # CmpFn(fn, a[2], a[1], p)
+
 \* ------------------------------------------------------------------ the structural functions
 \* c = [fn, t, a (arrays), ia (integer sequences / arrays), p (integers), s (strings)]; result: sequence of arrays
 Own(fn, fixes) == IF fn = "hstack" /\ "hstack" \notin fixes THEN "vstack" ELSE fn   \* _array_functions.py:436 forwards hstack to vstack
@@ -223,7 +252,13 @@ EvalFn(fn, c) ==
     [] fn = "det" -> <<A0(Det2(A))>>
     [] fn = "inv" -> <<Inv2(A)>>
     [] fn = "solve" -> <<MatVec(Inv2(A), a[2])>>
+    [] fn \in CmpFns -> <<CmpFn(fn, a[1], a[2], p)>>    \* property side: the operands in the order of the call
     [] OTHER -> <<>>
+
+\* the handler-level transition: the semantics of the routine forwarded to, on the operands the handler hands over
+EvalHandler(fn, c, fixes) ==
+  IF fn \in {"isclose", "allclose"} THEN <<CmpFn(fn, CompOperands(c.a, c.s)[1], CompOperands(c.a, c.s)[2], c.p)>>
+  ELSE EvalFn(Own(fn, fixes), c)
 
 \* in-place writers: expected contents of the target (first array) after the call
 EvalTarget(fn, c) ==
@@ -238,7 +273,7 @@ EvalTarget(fn, c) ==
     [] OTHER -> <<>>
 InPlaceFns == {"fill_diagonal", "put", "putmask", "place", "copyto"}
 IndexFns == {"searchsorted", "digitize", "argsort"}
-BoolFns == {"isin"}
+BoolFns == {"isin"} \cup CmpFns
 FloatFns == {"mean", "trapezoid", "interp", "det", "inv", "solve"}
 KindOf(fn, dt, j) == IF fn \in IndexFns THEN "i" ELSE IF fn \in BoolFns THEN "b" ELSE IF fn \in FloatFns THEN "f"
                      ELSE IF fn = "histogram" /\ j = 1 THEN "i" ELSE dt
